@@ -490,6 +490,9 @@ class Node:
         start_mark = attr_node.yaml_node.start_mark
         end_mark = attr_node.yaml_node.end_mark
 
+        if not all([item.is_mapping() for item in attr_node.seq_items()]):
+            return      # not a sequence of mappings
+
         # check that all list items are mappings and that the keys are unique
         # strings
         seen_keys = set()  # type: Set[str]
@@ -512,13 +515,13 @@ class Node:
             # we've already checked that it's a SequenceNode above
             key_node = item.get_attribute(key_attribute).yaml_node
             item.remove_attribute(key_attribute)
-            if value_attribute is not None:
+            if (
+                    value_attribute is not None and
+                    len(item.yaml_node.value) == 1 and
+                    item.has_attribute(value_attribute)):
+                # no other attributes, use short form
                 value_node = item.get_attribute(value_attribute).yaml_node
-                if len(item.yaml_node.value) == 1:
-                    # no other attributes, use short form
-                    mapping_values.append((key_node, value_node))
-                else:
-                    mapping_values.append((key_node, item.yaml_node))
+                mapping_values.append((key_node, value_node))
             else:
                 mapping_values.append((key_node, item.yaml_node))
 
@@ -614,14 +617,17 @@ class Node:
         if not attr_node.is_mapping():
             return
 
+        if value_attribute is None and not all([
+                isinstance(item_value, yaml.MappingNode)
+                for _, item_value in attr_node.yaml_node.value]):
+            return      # invalid format
+
         start_mark = attr_node.yaml_node.start_mark
         end_mark = attr_node.yaml_node.end_mark
         object_list = []
         for item_key, item_value in attr_node.yaml_node.value:
             item_value_node = Node(item_value)
             if not item_value_node.is_mapping():
-                if value_attribute is None:
-                    return      # invalid format
                 ynode = item_value_node.yaml_node
                 item_value_node.make_mapping()
                 item_value_node.yaml_node.start_mark = item_key.start_mark
@@ -739,12 +745,13 @@ class Node:
         if not attr_node.is_mapping():
             return
 
+        if not all([
+                isinstance(value_node, yaml.MappingNode)
+                for _, value_node in attr_node.yaml_node.value]):
+            return      # not a mapping of mappings
+
         new_value = list()
         for key_node, value_node in attr_node.yaml_node.value:
-            if not isinstance(value_node, yaml.MappingNode):
-                raise SeasoningError(
-                    'Values must be mappings for key "{}"'.format(attribute))
-
             # filter out key atttribute
             value_node.value = [
                     (k, v) for k, v in value_node.value
@@ -870,6 +877,11 @@ class Node:
         attr_node = self.get_attribute(attribute)
         if not attr_node.is_mapping():
             return
+
+        if value_attribute is None and not all([
+                isinstance(value_node, yaml.MappingNode)
+                for _, value_node in attr_node.yaml_node.value]):
+            return      # not a mapping of mappings
 
         new_value = list()
         for key_node, value_node in attr_node.yaml_node.value:
